@@ -207,6 +207,18 @@ def run(ctx):
             ctx.violation('bag-transcript-confidence', 'transcript confidence is not that hypothesis posterior', inp, tc)
         if nh >= 2:
             ctx.nontriv(inp)
+        # the same bag queried again after its (public) LM weight changed, and after another hypothesis was added
+        for w2 in (rng.choice([0.0, 0.25, 2.0, 3.0]), w):
+            bag.lm_weight = w2
+            post2 = [math.exp(p) for p in bag.posteriors()]
+            conf2 = bag.confidence()
+            if abs(sum(post2) - 1) > 1e-9 or any(p < 0 or p > 1 + 1e-12 for p in post2) or abs(conf2 - max(post2)) > 1e-12:
+                ctx.violation('bag-posteriors:after-weight-change', 'posteriors / confidence of a bag are not probabilities after its LM weight was changed',
+                              dict(inp, new_lm_weight=w2), [sum(post2), conf2])
+        bag.add('extra', rng.uniform(-30, 0), rng.uniform(-20, 0) if with_lm else None)
+        post3 = [math.exp(p) for p in bag.posteriors()]
+        if abs(sum(post3) - 1) > 1e-9 or abs(bag.confidence() - max(post3)) > 1e-12:
+            ctx.violation('bag-posteriors:after-add', 'posteriors of a bag do not sum to 1 after a hypothesis was added', inp, sum(post3))
     if ctx.driver_ok:
         rep = common.Driver(ctx).batch(reqs)
         for r, (inp, got, tol), q in zip(rep, impl, reqs):
